@@ -5,7 +5,6 @@ package main
 
 import (
 	"bytes"
-	"math/big"
 	"crypto"
 	"crypto/ecdsa"
 	"crypto/ed25519"
@@ -15,6 +14,7 @@ import (
 	"crypto/sha256"
 	"fmt"
 	"io"
+	"math/big"
 
 	cose "github.com/veraison/go-cose"
 )
